@@ -363,6 +363,40 @@ def reused_list_case(case):
     return n
 
 
+def source_dict_case(case):
+    """A dict and a ParameterList built from it are searched alternately while each is edited: every search evaluates
+    the declaration of the object it was given, as it is at that moment."""
+    reset_library()
+    GLOBAL_TABLE.clear()
+    GLOBAL_TABLE.update({(a, b): 10 * a + b for a in (1, 2, 3, 4) for b in (0, 5, 6)})
+    src = {'a': [3, 1, 2]}
+    pl = Batching.ParameterList(src)
+    pl.add_parameter('b', [5, 6])
+    n = 0
+
+    def search(params, combos, what):
+        nonlocal n
+        best, results = Batching.grid_search(GModel, params, global_score, processes=case['procs'], mode=ScoreMode.MIN)
+        got = [(r['a'], r.get('b', 0), r['score']) for r in results]
+        exp = [(a, b, 10 * a + b) for a, b in combos]
+        n += 1
+        if got != exp:
+            raise Violation(f'{what} (processes={case["procs"]}): the search does not evaluate the declaration of the '
+                            f'object it was given', expected=exp, observed=got)
+        if best != results[[e[2] for e in exp].index(min(e[2] for e in exp))]:
+            raise Violation(f'{what}: best is not the first minimum')
+    search(src, [(3, 0), (1, 0), (2, 0)], 'the dict, after a parameter was added to the list built from it')
+    search(pl, [(3, 5), (3, 6), (1, 5), (1, 6), (2, 5), (2, 6)], 'the list')
+    src['a'] = [4, 1]
+    src['b'] = [0]
+    search(pl, [(3, 5), (3, 6), (1, 5), (1, 6), (2, 5), (2, 6)], 'the list, after the dict it was built from was edited')
+    search(src, [(4, 0), (1, 0)], 'the edited dict')
+    pl.remove_parameter('b')
+    search(src, [(4, 0), (1, 0)], 'the dict, after a parameter was removed from the list')
+    search(pl, [(3, 0), (1, 0), (2, 0)], 'the list after the removal')
+    return n
+
+
 GLOBAL_TABLE = {}
 
 
@@ -442,6 +476,12 @@ def serial_cases(tier):
                 for mode in (0, 1, 4, 5):          # min / max / sums (mean and variance are not finite-safe here)
                     yield {'leg': 'serial_overflow', 'shape': name, 'reps': reps, 'mode': mode, 'table': list(flat),
                            'float': True}
+    # int and float scores side by side, the ints beyond 2**53 (distinct as ints, equal once coerced to doubles)
+    mix = [2 ** 53, 2 ** 53 + 1, 0.5, float(2 ** 53), -(2 ** 53) - 1]
+    for name, nc in (('2', 2), ('3', 3)):
+        for flat in itertools.product(mix, repeat=nc):
+            for mode in range(6):
+                yield {'leg': 'serial_mixed', 'shape': name, 'reps': 1, 'mode': mode, 'table': list(flat)}
     # parameter values given as one-shot iterables (generator, map, iterator): each value still evaluated once
     for src in ('generator', 'map', 'iter', 'range', 'tuple'):
         for mode in (0, 1):
@@ -485,13 +525,13 @@ def chunk_fn(ctx, chunk):
     cache = sched.WorkerCache()
     serial_memo = {}
     for case in chunk:
-        if case['leg'] in ('limit', 'reused_list', 'traits'):
+        if case['leg'] in ('limit', 'reused_list', 'traits', 'source_dict'):
             ctx.traces += 1
             ctx.states += 1
             ctx.transitions += 3
             try:
                 ctx.outcome(hbfs._guard({'limit': limit_case, 'reused_list': reused_list_case,
-                                         'traits': traits_case}[case['leg']], case))
+                                         'traits': traits_case, 'source_dict': source_dict_case}[case['leg']], case))
             except Violation as v:
                 ctx.report(case, v)
             continue
@@ -534,7 +574,7 @@ def run(ctx):
     ser = list(serial_cases(ctx.tier))
     sc = list(sched_cases())
     pr = list(pool_reuse_cases())
-    lim = list(limit_cases()) + [{'leg': 'reused_list', 'procs': 1}] + list(traits_cases())
+    lim = list(limit_cases()) + [{'leg': 'reused_list', 'procs': 1}, {'leg': 'source_dict', 'procs': 1}] + list(traits_cases())
     allc = lim + ser + sc
     if ctx.small:      # reduced: limits, traits, the 2- and 3-combination serial tables, no schedules
         allc = lim + [c for c in ser if c['shape'] in ('2', '3') and c['reps'] == 1]
@@ -542,7 +582,7 @@ def run(ctx):
     par.pmap(ctx, chunk_fn, [allc[i:i + size] for i in range(0, len(allc), size)], procs=ctx.procs)
     if not ctx.violations and not ctx.small:
         # real pools fork: run these from the parent, one after the other (deterministic: staleness, not timing)
-        chunk_fn(ctx, pr + [{'leg': 'reused_list', 'procs': 2}])
+        chunk_fn(ctx, pr + [{'leg': 'reused_list', 'procs': 2}, {'leg': 'source_dict', 'procs': 2}])
         ctx.leg('pool_reuse_real_pool', sequences=len(pr))
     ctx.leg('serial', searches=len(ser))
     ctx.leg('schedule', searches=len(sc))
@@ -553,6 +593,9 @@ def run(ctx):
 def replay(case):
     if case['leg'] == 'traits':
         hbfs._guard(traits_case, case)
+        return
+    if case['leg'] == 'source_dict':
+        hbfs._guard(source_dict_case, case)
         return
     if case['leg'] == 'limit':
         hbfs._guard(limit_case, case)
